@@ -198,8 +198,10 @@ contract(SV + 'run_admm_optimization', props=['C02', 'C19'],
          requires=_ARGS_OK + ["empirical_covariance.shape[0] == " + _NW, "empirical_covariance.shape[1] == " + _NW],
          assigns=['args.rho'],
          ghost={'kind:z_old': 'arr1[real]',
-                'returns': dict(X='x', Z='z', U='u', ZO='z_old', stopped='stopped', rounds='rounds'),
-                'return_kinds': dict(X='arr1[real]', Z='arr1[real]', U='arr1[real]', ZO='arr1[real]', stopped='bool', rounds='int'),
+                'returns': dict(X='x', Z='z', U='u', ZO='z_old', stopped='stopped', rounds='rounds', UP='uprev',
+                                TPU='ghost_admm_update_z_theta_plus_u'),
+                'return_kinds': dict(X='arr1[real]', Z='arr1[real]', U='arr1[real]', ZO='arr1[real]', stopped='bool', rounds='int',
+                                     UP='arr1[real]', TPU='arr1[real]'),
                 'nullable': []},
          ensures=["2*result.shape[0] == %s*(%s + 1)" % (_NW, _NW),
                   ("returns-the-last-x", "same(result, X)"),
@@ -220,8 +222,18 @@ contract(SV + 'run_admm_optimization', props=['C02', 'C19'],
                    "and 0 <= j2 and j2 < args.window_size - b2 and 0 <= j3 and j3 < args.window_size - b2, "
                    "Z[cidx(b2, r2, c2, j2, args.num_data_series, args.window_size)] == "
                    "Z[cidx(b2, r2, c2, j3, args.num_data_series, args.window_size)])))"),
+                  ("on-rule-exit:z-step-was-given-the-returned-x",
+                   "implies(stopped, forall(0, X.shape[0], lambda i: TPU[i] == X[i] + UP[i]))"),
+                  ("on-rule-exit:z-holds-the-class-prox-values-for-x-plus-u",
+                   "implies(stopped, " + (_ZINV % ("True", "args.sparsity_weight * (num_blocks - b2)")).replace('z_update', 'Z')
+                   .replace('theta_plus_u', 'TPU').replace('block_size', 'args.num_data_series').replace('num_blocks', 'args.window_size') + ")"),
+                  ("on-rule-exit:dual-variable-is-u-plus-x-minus-z",
+                   "implies(stopped, forall(0, X.shape[0], lambda i: U[i] == UP[i] + X[i] - Z[i]))"),
                   "fresh(result)", "unchanged(empirical_covariance)"],
-         loops={1: dict(ghost={'stopped': 'False', 'rounds': '0'}, ghost_break={'stopped': 'True', 'rounds': 'rounds + 1'},
+         loops={1: dict(ghost={'stopped': 'False', 'rounds': '0', 'uprev': 'u', 'ghost_admm_update_z_theta_plus_u': 'u'}, body_ghost={'uprev': 'u', 'rho0': 'args.rho'},
+                        # scaled dual variable: rho*u is what is carried from one round to the next
+                        lemmas_end=[("rho-rescaling-keeps-rho-times-u", "forall(0, x.shape[0], lambda i: "
+                                     "args.rho * u[i] == rho0 * (uprev[i] + x[i] - z[i]))")], ghost_break={'stopped': 'True', 'rounds': 'rounds + 1'},
                         ghost_update={'rounds': 'rounds + 1'},
                         # evenness of m(m+1), via the division-free form of tri_rank
                         lemmas_init=["2*tri_rank(matrix_size, 0, 0) == -(matrix_size*(matrix_size + 1))",
